@@ -9,7 +9,7 @@ echo "| seeded change | check | result |" >> $out
 echo "|---|---|---|" >> $out
 for d in seeded/C*_[a-z]; do
   n=$(basename $d); id=${n%%_*}
-  [ "$n" = "C04_b" ] && id=C08; [ "$n" = "C02_g" ] && id=C08; [ "$n" = "C03_h" ] && id=C10
+  [ "$n" = "C04_b" ] && id=C08; [ "$n" = "C02_g" ] && id=C08; [ "$n" = "C03_h" ] && id=C10; [ "$n" = "C04_i" ] && id=C08
   r=$(bin/try_mutant.sh $d $id 2>&1 | tail -1)
   res=$(echo "$r" | awk '{print $3}')
   sig=$(echo "$r" | sed 's/.*signature: //; s/;.*//' | cut -c1-110)
